@@ -14,8 +14,11 @@ def run(c):
     obl_context.obl_data(c, budget_s=300)
     # fixed method: the layout object survives an option change with the same layout file; a key pressed after it obeys the new options
     import obl_fixed
-    obl_fixed.obl_layout_table(c, thorough=(c.tier == "thorough"), budget_s=900, numpad_rows_only=(c.tier != "thorough"))
-    obl_context.obl_layout_switch(c, budget_s=600)      # "a changed layout switches method and layout": the real constructors from MIR, two layout files as oracles
+    obl_fixed.obl_layout_table(c, thorough=(c.tier == "thorough"), budget_s=900 if c.tier == "quick" else 3000, numpad_rows_only=(c.tier != "thorough"))
+    obl_context.obl_layout_switch(c, budget_s=600)
+    # phonetic method object kept across an option change: what the next key shows is the assembly's answer under the options now in force
+    # (nothing the method itself remembers of an earlier list)
+    obl_phonetic.obl_phonetic_glue(c, 2 if c.tier == "quick" else 3, budget_s=900)      # "a changed layout switches method and layout": the real constructors from MIR, two layout files as oracles
     # the method object and its memo survive an option change (update_engine, same layout): the switches are read when a word is shown
     A.obl_reconfig(c, ct, thorough=(c.tier == "thorough"), budget_s=900)
     # the refresh (update_engine) only re-reads the auto-correct list: everything else the constructor loads must not depend on the options
